@@ -125,6 +125,9 @@ struct config_t
     int64_t pool{1};
     int64_t batch{100};
     bool    cache_inputs{false}, cache_targets{false};
+    // calls made on the SAME function object before the compared one: (with gradient?, factor applied to the parameter vector).
+    // A solver evaluates one function object many times, with and without gradients: the compared call must not depend on them.
+    std::vector<std::pair<bool, double>> history;
 };
 
 
@@ -160,6 +163,22 @@ eval_t evaluate(const setup_t& s, const config_t& cfg)
         vector_t   xv(static_cast<tensor_size_t>(s.x.size()));
         std::copy(s.x.begin(), s.x.end(), xv.data());
         vector_t gx(static_cast<tensor_size_t>(s.x.size()));
+        const auto warm = [&](const auto& function, const vector_t& x0)
+        {
+            for (const auto& [with_gradient, factor] : cfg.history)
+            {
+                vector_t xh = x0;
+                xh.array() *= factor;
+                vector_t gh(xh.size());
+                try
+                {
+                    (void)(with_gradient ? function.vgrad(xh, gh) : function.vgrad(xh));
+                }
+                catch (const std::exception&)
+                {
+                }
+            }
+        };
         if (s.mode == 0)
         {
             auto iterator = flatten_iterator_t{dataset, s.samples};
@@ -174,6 +193,7 @@ eval_t evaluate(const setup_t& s, const config_t& cfg)
                 iterator.cache_targets(std::numeric_limits<tensor_size_t>::max());
             }
             const auto function = linear::function_t{iterator, *s.yloss, s.l1, s.l2};
+            warm(function, xv);
             // value-only and value+gradient calls must agree as well
             const auto fx0 = function.vgrad(xv);
             e.fx           = function.vgrad(xv, gx);
@@ -196,6 +216,7 @@ eval_t evaluate(const setup_t& s, const config_t& cfg)
             if (s.mode == 1)
             {
                 const auto function = gboost::bias_function_t{iterator, *s.yloss};
+                warm(function, xv);
                 e.fx                = function.vgrad(xv, gx);
             }
             else if (s.mode == 2)
@@ -212,6 +233,7 @@ eval_t evaluate(const setup_t& s, const config_t& cfg)
                 std::copy(s.soutputs.begin(), s.soutputs.end(), so.data());
                 std::copy(s.woutputs.begin(), s.woutputs.end(), wo.data());
                 const auto function = gboost::scale_function_t{iterator, *s.yloss, cluster, so, wo};
+                warm(function, xv);
                 e.fx                = function.vgrad(xv, gx);
             }
             else
@@ -226,6 +248,7 @@ eval_t evaluate(const setup_t& s, const config_t& cfg)
                         outs(i * tsize + k) = s.soutputs[static_cast<size_t>(s.samples(i) * tsize + k)];
                     }
                 }
+                warm(function, outs);
                 e.fx = function.vgrad(outs, g);
                 gx   = g;
             }
@@ -500,6 +523,13 @@ void body(ctx_t& c)
         k.batch         = u < 0.5 ? r.range(1, 12) : (u < 0.9 ? r.range(1, 100) : r.range(100, 10000));
         k.cache_inputs  = r.coin();
         k.cache_targets = r.coin();
+        if (r.coin(0.5))
+        {
+            for (int64_t h = 0, n = r.range(1, 4); h < n; ++h)
+            {
+                k.history.emplace_back(r.coin(), r.pick(std::vector<double>{1.0, 0.5, -1.0, 1.25, 0.0}));
+            }
+        }
         cfgs.push_back(k);
     }
     {
@@ -515,7 +545,7 @@ void body(ctx_t& c)
       << " l1=" << s.l1 << " l2=" << s.l2 << " configs=[";
     for (const auto& k : cfgs)
     {
-        d << "cores" << k.cores << "/pool" << k.pool << "/batch" << k.batch << (k.cache_inputs ? "/ci" : "") << (k.cache_targets ? "/ct" : "") << " ";
+        d << "cores" << k.cores << "/pool" << k.pool << "/batch" << k.batch << (k.cache_inputs ? "/ci" : "") << (k.cache_targets ? "/ct" : "") << (k.history.empty() ? "" : "/h" + std::to_string(k.history.size())) << " ";
     }
     d << "]";
     c.sample = d.str();
@@ -532,6 +562,10 @@ void body(ctx_t& c)
         if (k.cache_inputs || k.cache_targets)
         {
             c.probe("configurations_cached");
+        }
+        if (!k.history.empty())
+        {
+            c.probe("configurations_after_earlier_calls");
         }
     }
     // magnitude-aware floor: objective values are sums of n terms
